@@ -182,18 +182,21 @@ type State struct {
 	PC      []*sym.Term
 	local   []*sym.Term // assumptions of enclosing merge sides
 
-	prefix    []Dec
-	decisions []Dec
-	Pending   [][]Dec // new prefixes to explore
-	Params    map[string]string
-	stack     []*ssa.Function
-	Unwind    int
-	MaxForks  int
-	pcSet     map[int]bool
-	ForkSites map[string]int
-	ForcedChoices []int // values of the first vp.Choice calls (job splitting)
+	prefix        []Dec
+	decisions     []Dec
+	Pending       [][]Dec // new prefixes to explore
+	Params        map[string]string
+	stack         []*ssa.Function
+	Unwind        int
+	MaxForks      int
+	pcSet         map[int]bool
+	model         map[string]uint64 // an assignment satisfying the current path condition (nil: unknown)
+	ForkSites     map[string]int
+	MergeDebug    map[string]int
+	ForcedNamed   map[string]int // values of vp.Choice calls by name (job splitting)
+	ForcedChoices []int          // values of the first vp.Choice calls (job splitting)
 	choiceIdx     int
-	MaxConc   int // most values a symbolic index/size is concretised to (default 4)
+	MaxConc       int // most values a symbolic index/size is concretised to (default 4)
 
 	journalOn int
 	deferred  []*sym.Term // (side condition -> fact) learnt inside merge sides
@@ -274,7 +277,7 @@ func (st *State) CallFunc(fn *ssa.Function, args []Value) (res Value, aborted bo
 		if r := recover(); r != nil {
 			switch e := r.(type) {
 			case goPanic:
-				st.event("panic", e.Msg, nil)
+				st.event("panic", e.Msg, st.pcModel())
 				aborted = true
 			case unsupported:
 				st.event("unsupported", e.msg, nil)
@@ -290,6 +293,18 @@ func (st *State) CallFunc(fn *ssa.Function, args []Value) (res Value, aborted bo
 }
 
 type pathEnd struct{ why string }
+
+// pcModel returns values of the inputs that drive execution down this path.
+func (st *State) pcModel() map[string]uint64 {
+	if len(st.Vars) == 0 {
+		return nil
+	}
+	r, model := st.Solver.Check(st.local, st.Vars)
+	if r != sym.Sat {
+		return nil
+	}
+	return model
+}
 
 func (st *State) event(kind, label string, model map[string]uint64) {
 	where := ""
@@ -448,7 +463,7 @@ func (st *State) execBlock(fr *frame) {
 	for _, in := range b.Instrs[nphi:] {
 		st.Steps++
 		if st.Steps > st.MaxSteps {
-			st.event("budget", fmt.Sprintf("step budget exceeded in %v", fr.fn), nil)
+			st.event("budget", fmt.Sprintf("step budget exceeded in %v", fr.fn), st.pcModel())
 			panic(pathEnd{"budget"})
 		}
 		if st.Trace {
@@ -522,6 +537,8 @@ func (st *State) decideRec(c *sym.Term, hasVal bool, val uint64) bool {
 	}
 	pos := len(st.decisions)
 	var take bool
+	var next map[string]uint64
+	haveNext := false
 	if pos < len(st.prefix) {
 		take = st.prefix[pos].Take
 	} else if st.pcSet[c.ID] {
@@ -529,8 +546,23 @@ func (st *State) decideRec(c *sym.Term, hasVal bool, val uint64) bool {
 	} else if st.pcSet[st.TS.Not(c).ID] {
 		take = false
 	} else {
-		tOK := st.feasible(c)
-		fOK := st.feasible(st.TS.Not(c))
+		// One side is usually known to be feasible from the model kept for the
+		// current path condition; only the other side needs a query.
+		var tOK, fOK bool
+		var mT, mF map[string]uint64
+		if st.model != nil && len(st.local) == 0 {
+			if sym.Eval(c, st.model, map[int]uint64{}) == 1 {
+				tOK, mT = true, st.model
+			} else {
+				fOK, mF = true, st.model
+			}
+		}
+		if !tOK {
+			tOK, mT = st.feasibleM(c)
+		}
+		if !fOK {
+			fOK, mF = st.feasibleM(st.TS.Not(c))
+		}
 		switch {
 		case tOK && fOK:
 			take = true
@@ -548,6 +580,12 @@ func (st *State) decideRec(c *sym.Term, hasVal bool, val uint64) bool {
 			st.Dead = true
 			panic(pathEnd{"infeasible"})
 		}
+		if take {
+			next = mT
+		} else {
+			next = mF
+		}
+		haveNext = true
 	}
 	st.decisions = append(st.decisions, Dec{Take: take, HasVal: hasVal, Val: val})
 	if take {
@@ -555,7 +593,36 @@ func (st *State) decideRec(c *sym.Term, hasVal bool, val uint64) bool {
 	} else {
 		st.assume(st.TS.Not(c))
 	}
+	if haveNext {
+		st.model = next
+	}
 	return take
+}
+
+// feasibleM is feasible that also returns a model of PC and c when there is one.
+func (st *State) feasibleM(c *sym.Term) (bool, map[string]uint64) {
+	if c.IsTrue() {
+		return true, st.model
+	}
+	if c.IsFalse() {
+		return false, nil
+	}
+	extra := append(append([]*sym.Term(nil), st.local...), c)
+	var vars []*sym.Term
+	if len(st.local) == 0 {
+		vars = st.Vars
+	}
+	r, m := st.Solver.Check(extra, vars)
+	if r == sym.Unsat {
+		return false, nil
+	}
+	if r != sym.Sat || len(st.local) > 0 {
+		return true, nil
+	}
+	if m == nil {
+		m = map[string]uint64{}
+	}
+	return true, m
 }
 
 // concretize turns a symbolic integer into a concrete one by enumerating its
@@ -608,6 +675,9 @@ func (st *State) assume(c *sym.Term) {
 	st.pcSet[c.ID] = true
 	st.PC = append(st.PC, c)
 	st.Solver.Assert(c)
+	if st.model != nil && sym.Eval(c, st.model, map[int]uint64{}) != 1 {
+		st.model = nil
+	}
 }
 
 func (st *State) feasible(c *sym.Term) bool {
@@ -703,6 +773,9 @@ func (st *State) tryMerge(fr *frame, b *ssa.BasicBlock, c *sym.Term) (ok bool) {
 			st.journal = st.journal[:mark]
 			if r := recover(); r != nil {
 				good = false
+				if st.MergeDebug != nil {
+					st.MergeDebug[fmt.Sprintf("%v in %s", r, fr.fn.Name())]++
+				}
 				switch r.(type) {
 				case mergeAbort, goPanic, pathEnd, unsupported:
 					// fall back to forking
@@ -788,28 +861,20 @@ func (st *State) tryMerge(fr *frame, b *ssa.BasicBlock, c *sym.Term) (ok bool) {
 			upds = append(upds, upd{a, m})
 		}
 	}
-	// join registers: every slot that differs between the two sides
+	// registers: SSA values defined before the branch are the same on both
+	// sides; values defined inside a side do not dominate the join and can only
+	// be read there through a phi (evaluated per side below). Keep the
+	// pre-branch environment and, harmlessly, whatever a side defined.
 	merged := make([]Value, len(fr.env))
-	for i := range fr.env {
-		a, bb := sT.env[i], sF.env[i]
-		if a == nil || bb == nil {
-			// defined on one side only: only a phi may read it; keep whichever exists
-			if a != nil {
-				merged[i] = a
+	copy(merged, savedEnv)
+	for i := range merged {
+		if merged[i] == nil {
+			if sT.env[i] != nil {
+				merged[i] = sT.env[i]
 			} else {
-				merged[i] = bb
+				merged[i] = sF.env[i]
 			}
-			continue
 		}
-		m, good := st.iteVal(c, a, bb)
-		if !good {
-			// not mergeable but maybe never used after the join; be conservative
-			restore()
-			st.Steps = savedSteps
-			st.MergeFail++
-			return false
-		}
-		merged[i] = m
 	}
 	// phis at join read different predecessors on the two sides: evaluate them
 	// per side and merge.
@@ -939,7 +1004,25 @@ func (st *State) iteVal(c *sym.Term, a, b Value) (Value, bool) {
 		return a, ok && x.P == y.P
 	case Str:
 		y, ok := b.(Str)
-		return a, ok && x.Sym == nil && y.Sym == nil && x.S == y.S
+		if !ok {
+			return nil, false
+		}
+		if x.Sym == nil && y.Sym == nil {
+			return a, x.S == y.S
+		}
+		if slen(x) != slen(y) {
+			return nil, false
+		}
+		xb, yb := sbytes(x), sbytes(y)
+		out := make([]Int, len(xb))
+		for i := range xb {
+			m, good := st.iteVal(c, xb[i], yb[i])
+			if !good {
+				return nil, false
+			}
+			out[i] = m.(Int)
+		}
+		return mkStr(out), true
 	case Slice:
 		y, ok := b.(Slice)
 		if !ok || x.Nil != y.Nil || len(x.Data) != len(y.Data) || cap(x.Data) != cap(y.Data) {
@@ -973,7 +1056,7 @@ func (st *State) iteVal(c *sym.Term, a, b Value) (Value, bool) {
 		return Iface{T: x.T, V: m}, good
 	case nil:
 		return nil, b == nil
-	case *mapIter, *strIter:
+	case *mapIter, *strIter, *symStrIter:
 		return a, a == b
 	case Float:
 		y, ok := b.(Float)
